@@ -427,6 +427,65 @@ fn render(scene: &Scene, ibs: usize, parts: &[usize], channels: u16) -> Result<V
 	Ok(out)
 }
 
+/// a long streaming sound whose decoder keeps its 16384-frame ring topped up (before every callback it is given time for as
+/// many iterations as the callback will consume, and then some), rendered in large callbacks of several shapes: same audio
+fn huge_stream(ctx: &mut Ctx) {
+	pacer::set_mode(pacer::Mode::Pacer);
+	let total = 24576usize;
+	let shapes: Vec<(usize, Vec<usize>)> = vec![
+		(4096, vec![4096, 4000, 12288, 4192]),
+		(255, vec![1020; 24].into_iter().chain([96]).collect()),
+		(64, vec![12288, 12288]),
+	];
+	let mut reference: Option<Vec<f32>> = None;
+	for (ibs, parts) in shapes {
+		ctx.evals += 1;
+		assert_eq!(parts.iter().sum::<usize>(), total);
+		let mut m = rig::manager(SR, ibs, rig::caps(2), MainTrackBuilder::new());
+		let first = pacer::count();
+		let frames: Vec<Frame> = (0..30000).map(|i| Frame::new(noise(i), noise(i + 5))).collect();
+		let (dec, stats) = ScriptedDecoder::new(frames, SR, vec![64, 3, 1], 2);
+		let h = m.play(StreamingSoundData::from_decoder(dec)).map_err(|_| ()).unwrap();
+		// the ring is filled to the brim before the first callback
+		pacer::step_all_from(first, 16400);
+		let mut out: Vec<f32> = vec![];
+		let mut failed = None;
+		for &n in &parts {
+			pacer::step_all_from(first, n as u64 + 8);
+			let mut buf = vec![0.0f32; 2 * n];
+			let rep = rig::callback(&mut m, &mut buf, n, 2);
+			if !rep.ok() {
+				failed = Some(format!("callback monitor {:?}", rep));
+				break;
+			}
+			out.extend(buf);
+		}
+		let desc = format!("30000-frame streaming sound at rate 1, internal buffer {}, callbacks {:?}; the decoder runs 16400 iterations before the first callback and (callback size + 8) iterations before each callback", ibs, if parts.len() > 8 { parts[..8].to_vec() } else { parts.clone() });
+		if let Some(f) = failed {
+			ctx.fail(format!("{} :: long stream, large callbacks", f), desc);
+		} else if let Some(r) = &reference {
+			if let Some(i) = (0..out.len()).find(|&i| out[i] != r[i]) {
+				ctx.fail(
+					"output depends on the callback partition (a long streaming sound rendered in large callbacks) :: long stream, large callbacks".to_string(),
+					format!("{}: sample {} (frame {}) = {:e}, with callbacks [4096, 4000, 12288, 4192] and internal buffer 4096 it is {:e}", desc, i, i / 2, out[i], r[i]),
+				);
+			} else {
+				ctx.nontrivial_extra += 1;
+			}
+		} else {
+			// the first shape is the reference; it must at least be the source, frame by frame (rate 1: exact copies)
+			if let Some(f) = (3..total).find(|&f| out[2 * f] == 0.0 && out[2 * f + 1] == 0.0 && noise(f) != 0.0 && f + 8 < total && (f..f + 8).all(|g| out[2 * g] == 0.0)) {
+				ctx.fail("a streaming sound whose decoder is kept ahead goes silent inside a large callback :: long stream, large callbacks".to_string(), format!("{}: silence from frame {} on", desc, f));
+			}
+			reference = Some(out);
+		}
+		drop(h);
+		drop(m);
+		crate::probes::reap_decoder(first, &stats);
+	}
+	ctx.outcome(hash64(&"huge stream"));
+}
+
 impl Check for C11 {
 	fn id(&self) -> &'static str {
 		"C11"
@@ -463,6 +522,11 @@ impl Check for C11 {
 		vec![("scenes".into(), J::arr_str(scenes().iter().map(|s| s.name.to_string())))]
 	}
 	fn run_case(&self, tier: Tier, idx: u64, ctx: &mut Ctx) {
+		if idx == 0 {
+			if let Err(p) = catch(|| huge_stream(ctx)) {
+				ctx.fail(format!("panic: {} :: long stream, large callbacks", p), "");
+			}
+		}
 		let all = scenes();
 		let sc = &all[(idx / IBS.len() as u64) as usize];
 		let ibs = IBS[(idx % IBS.len() as u64) as usize];
